@@ -30,6 +30,7 @@ KEYS = ["kk", "id", "x:y", "scope"]
 VALS = ["", "11", "vv", "w w", "é中", None, None]      # dict values may be None (e.g. extras set by callers)
 TEXTS = [None, "", "tt", "some text", "éé"]
 PREFIXES = [None, "eml", "xx"]
+NSKEYS = KEYS + [None]          # nsmap prefixes: None is the default-namespace binding
 
 
 def fresh(s):
@@ -52,9 +53,10 @@ HEADER = "From MP Require Import Model.EqualRun.\n"
 
 
 # ------------------------------------------------------------------ generation
-def rand_dict(rng, maxn=3):
+def rand_dict(rng, maxn=3, pool=None):
+    pool = KEYS if pool is None else pool
     n = rng.choice([0, 0, 1, 2, maxn])
-    ks = rng.sample(KEYS, min(n, len(KEYS)))
+    ks = rng.sample(pool, min(n, len(pool)))
     return [[k, rng.choice(VALS)] for k in ks]
 
 
@@ -62,7 +64,7 @@ def rand_tree(rng, budget, depth=0):
     """snapshot dict of a random tree with at most `budget` nodes"""
     sn = {"id": None, "name": rng.choice(NAMES), "content": rng.choice(TEXTS), "tail": rng.choice(TEXTS[:3]),
           "prefix": rng.choice(PREFIXES), "attrs": rand_dict(rng), "extras": rand_dict(rng, 2),
-          "nsmap": rand_dict(rng, 2), "kids": []}
+          "nsmap": rand_dict(rng, 2, NSKEYS), "kids": []}
     budget -= 1
     if depth < 3:
         nk = rng.choice([0, 1, 2, 2, 3]) if depth else rng.choice([1, 2, 3])
@@ -145,12 +147,24 @@ def rand_ns_plan(rng, nnodes):
     declaration on an inner node (its subtree then shares a second dict)."""
     plan = []
     if rng.random() < 0.3:
-        plan.append(["set_nsmap", [[k, rng.choice(VALS)] for k in rng.sample(KEYS, rng.randint(0, 2))]])
+        plan.append(["set_nsmap", [[k, rng.choice(VALS)] for k in rng.sample(NSKEYS, rng.randint(0, 2))]])
     else:
-        for k in rng.sample(KEYS, rng.randint(1, 2)):
+        for k in rng.sample(NSKEYS, rng.randint(1, 2)):
             plan.append(["add_ns", 0, k, rng.choice(VALS)])
     if nnodes > 1 and rng.random() < 0.5:
-        plan.append(["add_ns", rng.randrange(1, nnodes), rng.choice(KEYS), rng.choice(VALS)])
+        plan.append(["add_ns", rng.randrange(1, nnodes), rng.choice(NSKEYS), rng.choice(VALS)])
+    # NON-CLOSED maps, made the ways the API allows: an inner node drops a prefix its parent declares
+    # (remove_namespace), gets a map assigned directly, or an ancestor re-declares without its children
+    if nnodes > 1 and rng.random() < 0.6:
+        for _ in range(rng.randint(1, 2)):
+            how = rng.choice(["remove_ns", "assign", "set_nsmap_nochildren"])
+            if how == "remove_ns":
+                plan.append(["remove_ns", rng.randrange(1, nnodes), rng.randrange(8)])
+            elif how == "assign":
+                plan.append(["assign", rng.randrange(1, nnodes), [[k, rng.choice(VALS)] for k in rng.sample(NSKEYS, rng.randint(0, 2))]])
+            else:
+                plan.append(["set_nsmap_nochildren", rng.randrange(0, nnodes),
+                             [[k, rng.choice(VALS)] for k in rng.sample(NSKEYS, rng.randint(1, 3))]])
     return plan
 
 
@@ -162,6 +176,14 @@ def lib_build(sn, plan):
         nodes = nodes_preorder(root)
         if step[0] == "set_nsmap":
             root.set_nsmap({fresh(k): fresh(v) for k, v in step[1]})
+        elif step[0] == "remove_ns":
+            nd = nodes[step[1] % len(nodes)]
+            if nd.nsmap:
+                nd.remove_namespace(list(nd.nsmap)[step[2] % len(nd.nsmap)])
+        elif step[0] == "assign":
+            nodes[step[1] % len(nodes)].nsmap = {fresh(k): fresh(v) for k, v in step[2]}
+        elif step[0] == "set_nsmap_nochildren":
+            nodes[step[1] % len(nodes)].set_nsmap({fresh(k): fresh(v) for k, v in step[2]}, children=False)
         else:
             nodes[step[1] % len(nodes)].add_namespace(fresh(step[2]), fresh(step[3]))
     return root
@@ -194,13 +216,13 @@ def other(rng, pool, cur):
     return rng.choice(c)
 
 
-def dict_edit(rng, get, put):
+def dict_edit(rng, get, put, pool=None):
     """returns a list of (kind, thunk) applicable to the dict obtained by get(): add, remove,
     change, rekey on a random entry, and remove/change/rekey once more on a None-valued entry
     when there is one (None versus "missing" is the classic confusion)."""
     d = get()
     eds = []
-    free = [k for k in KEYS if k not in d]
+    free = [k for k in (KEYS if pool is None else pool) if k not in d]
     if free:
         k0 = rng.choice(free)
         v0 = rng.choice(VALS)
@@ -241,7 +263,7 @@ def edits_for(rng, node, is_root):
         eds.append(("attrs-" + kind, th))
     for kind, th in dict_edit(rng, lambda: node.extras, put_e):
         eds.append(("extras-" + kind, th))
-    for kind, th in dict_edit(rng, lambda: node.nsmap, lambda k, v: node.nsmap.__setitem__(k, v)):
+    for kind, th in dict_edit(rng, lambda: node.nsmap, lambda k, v: node.nsmap.__setitem__(k, v), NSKEYS):
         eds.append(("nsmap-" + kind, th))
     n = len(node.children)
 
@@ -269,7 +291,7 @@ def coq_val(v):
 
 
 def coq_dict(d):
-    return clist(common.cpair(common.cstr(k), coq_val(v)) for k, v in d)
+    return clist(common.cpair(coq_val(k), coq_val(v)) for k, v in d)      # a None KEY (default namespace) is injected the same way
 
 
 def coq_otree(node, objmap):
@@ -330,6 +352,9 @@ class Collector:
             if obs != [exp, exp]:
                 what = (f"Node.is_equal answers {obs[0]} / {obs[1]} (both argument orders) on two distinct trees that "
                         f"{'agree in every field and child' if exp else 'differ (' + kind + ')'}")
+                if kind.startswith("equal-copy"):
+                    what = (f"Node.is_equal answers {obs[0]} / {obs[1]} (both argument orders) on a tree and its unedited copy(); "
+                            f"field by field they {'agree' if deep_eq(sa, sb) else 'DIFFER (the copy is not faithful)'}")
                 ctx.fail("C18:" + kind, what, {"kind": "impl-vs-statement", **meta})
         elif any(o is not False for o in obs):
             # not covered by the statement (same object involved); recorded for the model only
@@ -360,7 +385,10 @@ def gen_cases(ctx, col, ntrees, max_nodes, per_node_edits):
         col.add("equal-independent", a, b, True, (ti, "eq"))
         c = mk("c", shuffled_dicts(base, rng))
         col.add("equal-dict-order", a, c, True, (ti, "eqo"))
-        col.add("equal-copy", a, a.copy(), True, (ti, "copy"))
+        # the statement itself: a deep copy compares equal to its original (both orders), whatever shape
+        # the namespace maps have (non-closed maps, default-namespace keys, shared dicts)
+        col.add("equal-copy", a, a.copy(), True, (ti, "copy"), expected=True)
+        col.add("equal-copy-of-copy", a, a.copy().copy(), True, (ti, "copy2"), expected=True)
         col.add("same-object", a, a, False, (ti, "same"))
         # two DISTINCT trees whose corresponding nodes carry the same Node.id
         col.add("equal-same-ids", a, mk("a"), True, (ti, "sameids"))
@@ -404,11 +432,12 @@ def gen_cases(ctx, col, ntrees, max_nodes, per_node_edits):
                 # the pair is compared BEFORE the edit, then one of them is edited in place and the
                 # SAME objects are compared again
                 before = observe(a, b)
-                exp_before = deep_eq(NL.snapshot(a), NL.snapshot(b))
+                exp_before = True if how == "copy" else deep_eq(NL.snapshot(a), NL.snapshot(b))
                 if before != [exp_before, exp_before]:
                     ctx.fail("C18:pre-edit:" + how, f"a tree and its {how} compare {before} before any edit; field by field they "
                              f"{'agree' if exp_before else 'differ'}",
-                             {"kind": "impl-vs-statement", "a": snap_sh(a), "b": snap_sh(b), "observed": before, "expected": exp_before})
+                             {"kind": "equal-copy" if how == "copy" else "pre-edit:" + how, "a": snap_sh(a), "b": snap_sh(b),
+                              "observed": before, "expected": exp_before})
                 other_before = NL.snapshot(other_tree)
                 base_a = snap_sh(a)
                 avail[kind]()
@@ -541,9 +570,14 @@ def replay(ctx, data):
     NL.reset_store()
     dd = {}
     a = build_sh(case["a"], dd)
-    b = a if case.get("kind") == "same-object" else build_sh(case["b"], dd)
+    if case.get("kind") == "same-object":
+        b = a
+    elif str(case.get("kind", "")).startswith("equal-copy"):
+        b = a.copy().copy() if case["kind"].endswith("of-copy") else a.copy()      # the original rebuilt, copied again
+    else:
+        b = build_sh(case["b"], dd)
     obs = observe(a, b)
-    exp = deep_eq(case["a"], case["b"])
+    exp = case["expected"] if isinstance(case.get("expected"), bool) else deep_eq(case["a"], case["b"])
     print("observed", obs, "expected (distinct trees)", exp)
     if case.get("distinct_trees", True) and obs != [exp, exp]:
         ctx.fail("C18:" + case.get("kind", "replay"), f"Node.is_equal answers {obs}, the trees {'agree' if exp else 'differ'}",
